@@ -638,6 +638,13 @@ def reshape(a, *shape, order="C"):
     if len(shape) == 1 and isinstance(shape[0], (tuple, list)):
         shape = tuple(shape[0])
     shape = tuple(shape)
+    if order not in ("C", "F"):
+        raise Unsupported(f"reshape(order={order!r})")
+    if order == "F":
+        # a.reshape(shape, order="F") == a.T.reshape(shape[::-1]).T   (.T reverses all axes)
+        at = transpose(a) if a.ndim > 1 else a
+        res = reshape(at, *reversed(shape))
+        return transpose(res) if res.ndim > 1 else res
     tot_fac = tuple(x for ax in a.axes for x in ax)
     total = prod(tot_fac)
     # resolve -1
